@@ -308,6 +308,8 @@ def refract(n, nprime, S, r):
     """
     mu = n/nprime
     musq = mu * mu
+    # r is the gradient of the surface function, only a unit vector at the vertex: Snell's law needs the unit normal
+    r = r / np.sqrt(_multi_dot(r, r))[:, np.newaxis]
     cosI = _multi_dot(r, S)
     cosIsq = cosI * cosI
     # the inline newaxis-es are terrible for readability, but serve a performance purpose
